@@ -629,7 +629,7 @@ class Exec:
             raise _Raise(Raised("AssertionError"))
 
     def st_For(self, st, env):
-        it = self.ev(st.iter, env)
+        it = _obj_iter(self, st, self.ev(st.iter, env))
         if isinstance(it, dict):
             it = list(it.keys())
         if isinstance(it, SymRange):
@@ -1776,7 +1776,25 @@ def _sh_zip(ex, node, *a):
     return list(zip(*a))
 
 
+def _obj_iter(ex, node, x):
+    """iteration over an object of a modelled class: its real __iter__ is executed (iter(<concrete sequence>) is the sequence)"""
+    if isinstance(x, Obj) and x._cls is not None:
+        c, n = x._cls.lookup("methods", "__iter__")
+        if n is None:
+            raise SymExError(f"object of class {x._cls.name} is not iterable (no __iter__ in the modelled classes)")
+        return ex.call_method(x, MethodFn(c, n), [], {}, node)
+    return x
+
+
+def _sh_iter(ex, node, x):
+    x = _obj_iter(ex, node, x)
+    if not isinstance(x, (list, tuple, range, dict)):
+        raise SymExError("iter() over a non-concrete iterable")
+    return list(x)
+
+
 def _sh_enumerate(ex, node, x, start=0):
+    x = _obj_iter(ex, node, x)
     return [(sp.Integer(i), v) for i, v in enumerate(x, _concrete_int(start))]
 
 
@@ -1845,7 +1863,7 @@ def _sh_np_all(ex, node, x):
 SHIMS = {
     "abs": _sh_abs, "float": _sh_float, "int": _sh_int, "complex": _sh_complex, "len": _sh_len, "range": _sh_range,
     "prange": _sh_range, "max": _sh_max, "min": _sh_min, "isinstance": _sh_isinstance, "sum": _sh_sum, "print": _sh_print,
-    "tuple": _sh_tuple, "list": _sh_list, "dict": _sh_dict, "zip": _sh_zip, "enumerate": _sh_enumerate, "str": _sh_str,
+    "tuple": _sh_tuple, "list": _sh_list, "dict": _sh_dict, "zip": _sh_zip, "enumerate": _sh_enumerate, "iter": _sh_iter, "str": _sh_str,
     "bool": _sh_bool, "reversed": _sh_reversed, "sorted": _sh_sorted, "type": _sh_type, "any": _sh_any, "all": _sh_all,
 }
 
